@@ -14,7 +14,8 @@ import numpy as np
 from . import build
 
 HOME = build.HOME
-OUT_HOME = '/verif' if (os.path.isdir('/verif') and HOME.startswith('/verif')) else HOME
+# VERIF_OUT: trial runs against scratch trees (seeded changes, refactorings) write their evidence / replay files elsewhere
+OUT_HOME = os.environ.get('VERIF_OUT') or ('/verif' if (os.path.isdir('/verif') and HOME.startswith('/verif')) else HOME)
 KNOWN = os.path.join(HOME, 'known_findings.json')
 
 
